@@ -774,11 +774,11 @@ Handler::ArgResult
       handleIdentifiedArg( p_arg_hdl, key);
 
       auto  subArgHandler = static_cast< detail::TypedArgSubGroup*>( p_arg_hdl)->obj();
-      ++ai;
 
       // we may only advance the main iterator if the argument is (still)
       // handled by the sub-argument
       auto  subAI( ai);
+      ++subAI;
       while ((subAI != end)
              && (subArgHandler->evalSingleArgument( subAI, end) == ArgResult::consumed))
       {
